@@ -165,6 +165,10 @@ func (m *Dense) UnmarshalBinary(data []byte) error {
 	if rows < 0 || cols < 0 {
 		return errBadSize
 	}
+	if cols != 0 && rows > maxLen/int64(sizeFloat64)/cols {
+		// rows*cols*sizeFloat64 would overflow.
+		return errTooBig
+	}
 	size := rows * cols
 	if size == 0 {
 		return ErrZeroLength
@@ -220,6 +224,10 @@ func (m *Dense) UnmarshalBinaryFrom(r io.Reader) (int, error) {
 	}
 	if rows < 0 || cols < 0 {
 		return n, errBadSize
+	}
+	if cols != 0 && rows > maxLen/int64(sizeFloat64)/cols {
+		// rows*cols*sizeFloat64 would overflow.
+		return n, errTooBig
 	}
 	size := rows * cols
 	if size == 0 {
@@ -358,7 +366,7 @@ func (v *VecDense) UnmarshalBinary(data []byte) error {
 	if n < 0 {
 		return errBadSize
 	}
-	if int64(maxLen) < n {
+	if maxLen/int64(sizeFloat64) < n {
 		return errTooBig
 	}
 	if len(data) != headerSize+int(n)*sizeFloat64 {
@@ -407,7 +415,7 @@ func (v *VecDense) UnmarshalBinaryFrom(r io.Reader) (int, error) {
 	if l < 0 {
 		return n, errBadSize
 	}
-	if int64(maxLen) < l {
+	if maxLen/int64(sizeFloat64) < l {
 		return n, errTooBig
 	}
 
